@@ -270,6 +270,32 @@ for _m in ["random", "diversity", "representativity"]:
         lambda s, ml=NAN, m=_m: P.RegressionTreeBasedAL(method=m, missing_label=ml, random_state=s),
         lambda c: dict(reg=reg_tree(c.get("ml", NAN))), kind="reg", selection="rt", model_arg="reg")
 
+# ---- variants whose constructor parameters are caller-owned ARRAYS (unsorted / float64 / asymmetric), so that an
+# in-place operation on a parameter (sort, normalisation, fill_diagonal ...) becomes visible to the C05/C13 monitors
+_CM = lambda: np.array([[0.0, 2.0, 1.0], [0.5, 0.0, 3.0], [1.5, 1.0, 0.0]])
+add("ProbCover_deltas", P.ProbCover,
+    lambda s, ml=NAN: P.ProbCover(deltas=np.array([1.0, 0.4, 1.6, 0.2, 0.8]), missing_label=ml, random_state=s),
+    kind="both", feat=False, lazy=True)
+add("ProbCover_nclasses", P.ProbCover,
+    lambda s, ml=NAN: P.ProbCover(n_classes=3, alpha=0.8, cluster_algo_dict={"n_init": 1}, missing_label=ml, random_state=s),
+    kind="both", feat=False, lazy=True)
+add("MonteCarloEER_cm", P.MonteCarloEER,
+    lambda s, ml=NAN: P.MonteCarloEER(cost_matrix=_CM(), missing_label=ml, random_state=s),
+    lambda c: dict(clf=_ctx_clf(c)), arbitrary_index_ok=True, independent=True, perm=True, model_arg="clf", nmax=16, slow=2,
+    lazy=True)
+add("VoIEER_cm", P.ValueOfInformationEER,
+    lambda s, ml=NAN: P.ValueOfInformationEER(cost_matrix=_CM(), consider_labeled=False, missing_label=ml, random_state=s),
+    lambda c: dict(clf=_ctx_clf(c)), arbitrary_index_ok=True, independent=True, perm=True, feat=False, model_arg="clf", nmax=16,
+    slow=2, lazy=True)
+add("CostEmbeddingAL_cm", P.CostEmbeddingAL,
+    lambda s, ml=NAN, classes=(0, 1, 2): P.CostEmbeddingAL(classes=list(classes), cost_matrix=_CM(), mds_params={"n_init": 1},
+                                                         nn_params={"algorithm": "brute"}, missing_label=ml, random_state=s),
+    arbitrary_index_ok=True, independent=True, needs_classes=True, nmax=12, slow=4, lazy=True)
+add("TypiClust_k", P.TypiClust, lambda s, ml=NAN: P.TypiClust(k=2, missing_label=ml, random_state=s), kind="both", feat=False, lazy=True)
+add("Quire_lmbda", P.Quire,
+    lambda s, ml=NAN, classes=(0, 1, 2): P.Quire(classes=list(classes), lmbda=0.3, metric_dict={"gamma": 0.5}, missing_label=ml, random_state=s),
+    feat=False, independent=True, perm=True, needs_classes=True, nmax=20, lazy=True)
+
 POOL_WRAPPERS = {"SubSamplingWrapper", "ParallelUtilityEstimationWrapper"}
 POOL_NON_STRATEGY = {"multiannotator", "utils", "cost_reduction", "uncertainty_scores",
                      "expected_average_precision", "average_kl_divergence", "vote_entropy",
